@@ -13,7 +13,8 @@ import common, gen, configs
 LEVEL = "other"
 THEOREMS = ["Mistune.escape_eq_flatMap", "Mistune.escape_roundtrip", "Mistune.iterRender_length",
             "Mistune.evalTmpl_pass", "Mistune.evalTmpl_leaf", "Mistune.leaves_in_order", "Mistune.leaves_in_order_doc", "Mistune.templates_passTypes", "Mistune.templates_leafOps",
-            "Mistune.templates_none_opaque", "Mistune.renderTok_balanced", "Mistune.render_balanced", "Mistune.templates_balOk", "Mistune.templates_strict", "Mistune.templates_nodup", "Mistune.tagTable_wf"]
+            "Mistune.templates_none_opaque", "Mistune.renderTok_balanced", "Mistune.render_balanced", "Mistune.templates_balOk", "Mistune.templates_strict", "Mistune.templates_nodup", "Mistune.tagTable_wf",
+            "Mistune.striptagsRx_is_expected", "Mistune.stripAgrees_generated", "Mistune.render_balanced_closed"]
 
 VOID = {"br", "hr", "img", "input"}
 BLOCK_EL = {"p", "div", "ul", "ol", "li", "blockquote", "pre", "table", "thead", "tbody", "tr", "td", "th", "h1", "h2", "h3", "h4", "h5", "h6", "hr", "dl", "dt", "dd", "section",
